@@ -16,6 +16,7 @@ from . import qml
 from . import uigenk as U
 
 TARGETS = ["props/C04.vo"]
+DRIVER_TARGETS = ["model/Driver.vo"]
 PINS = "pins/C04.v"
 TRUSTED = ["harness uigen + xml.etree; the labels the generator puts on bindings (constant? converts? return type? setter/getter) are the generator's knowledge of the "
            "Qt metatypes -- a wrong label shows up as a K disagreement, never as a silent pass",
@@ -253,7 +254,7 @@ def flag_consistent(ctx, res, rep):
 
 
 def run(ctx):
-    ctx.proof_leg(TARGETS, PINS, k_targets=U.K_TARGETS)
+    ctx.proof_leg(TARGETS, PINS, k_targets=list(U.K_TARGETS) + DRIVER_TARGETS)
     vh = ctx.need_harness()
     rng = ctx.rng
     n = 4500 if ctx.tier == "thorough" else 300
@@ -372,6 +373,7 @@ def run(ctx):
                     ctx.violation("accepted document: exit %d, outputs %r" % (pr.returncode, sorted(os.listdir(d))), dict(rep, impl_output=pr.stderr[-800:]))
     # several sources in one invocation: an error in ANY of them makes the command exit non-zero, wherever in the list the faulty source stands, and that source's
     # outputs are not created or modified
+    dterms, dmeta = [], []
     clean = [docs[i] for i in range(len(docs)) if isinstance(impl[i], dict) and impl[i].get("ui") is not None and not impl[i]["diags"]][:3]
     bad_docs = [fdocs[i] for i in sorted(firsts.values())][:4 if ctx.tier == "thorough" else 2]
     if clean:
@@ -388,6 +390,12 @@ def run(ctx):
                                     capture_output=True, text=True, timeout=120)
                 ncli += 1
                 ctx.count(("cli-multi", bi, oi), True)
+                # K: the loop over the sources vs model/Driver.v -- which sources' outputs exist afterwards, and the exit status
+                num = {"Good": 1, "Good2": 2}
+                written = [num[nme] for nme in order if nme != "Bad" and os.path.exists(os.path.join(d, nme.lower() + ".ui"))]
+                dterms.append((C.coq_list(["HasErrors" if nme == "Bad" else "(Translated %d)" % num[nme] for nme in order]),
+                               "(%s, %s)" % (C.coq_list([str(x) for x in written]), "true" if pr.returncode == 0 else "false")))
+                dmeta.append(["generate-ui"] + [nme + ".qml" for nme in order])
                 rep = {"qml": bad_src, "cli_args": ["generate-ui", "--foreign-types", "contrib/metatypes"] + [nme + ".qml" for nme in order], "other_sources": "accepted documents"}
                 if pr.returncode == 0:
                     ctx.violation("the command exits 0 although the source %s of [%s] has an error" % ("Bad.qml", ", ".join(order)), dict(rep, impl_output=pr.stderr[-800:],
@@ -396,6 +404,15 @@ def run(ctx):
                     ctx.violation("outputs of the faulty source modified (sources [%s])" % ", ".join(order), dict(rep, impl_output=pr.stderr[-800:]))
     shutil.rmtree(work, ignore_errors=True)
     ctx.coverage["cli_runs"] = ncli
+    if ctx.model_ok and dterms:
+        dh = ("From QV Require Import model.Driver.\nFrom Coq Require Import List Bool Arith NArith.\nImport ListNotations.\n"
+              "Definition ln_eqb (a b : list nat) : bool := if list_eq_dec Nat.eq_dec a b then true else false.\n"
+              "Definition drv_eqb (m e : list nat * bool) : bool := ln_eqb (fst m) (fst e) && Bool.eqb (snd m) (snd e).\n")
+        dbad = C.coq_eval_mismatches("c04drv", dh, dterms, "drv_eqb", "(run_sources nat)", "list (verdict nat) * (list nat * bool)", shard_size=100, scope="nat_scope")
+        ctx.coverage["driver_runs_compared_with_model"] = len(dterms)
+        if dbad and not ctx.violations:
+            ctx.broke("K", "src/main.rs generate_ui (the loop over the sources) vs model/Driver.v", "model and command differ on %d invocations; first: %r observed (written sources, exit 0?) = %s"
+                      % (len(dbad), dmeta[dbad[0]], dterms[dbad[0]][1]))
     ctx.sample({"qml": docs[0]})
     ctx.coverage["compared_with_model"] = len(terms)
     ctx.coverage["rule"] = ("documents over 12 widget classes, 4 layouts, spacers, actions; per object 0-6 scalar bindings (constant / dynamic; half of the documents with 12% ill-typed), "
